@@ -270,6 +270,7 @@ def run(ctx):
     objects_round3(ctx, RecurrencePlot, rng, nprng, quick)
     bootstrap(ctx, K, RecurrencePlot, rng, nprng, quick)
     doubles(ctx, K, RecurrencePlot, rng, nprng, quick)
+    criteria_and_subclasses(ctx, rng, nprng, quick)
     scalar_correspondence(ctx)
 
     # ---------------- sequential vs matrix on generic float data ----------
@@ -881,6 +882,108 @@ def doubles(ctx, K, RecurrencePlot, rng, nprng, quick):
                              dict(replay, expected=exp, observed=got))
     ctx.correspond("model fixedThresholdX(binary64) == RecurrencePlot.recurrence_matrix() on series "
                    "with infinite / NaN samples", reqs, impl)
+
+
+def criteria_and_subclasses(ctx, rng, nprng, quick):
+    """round 4: every way of reaching a recurrence matrix, not only the fixed threshold: fixed
+    (local) recurrence rate -- the local one gives ASYMMETRIC matrices --, adaptive neighbourhood
+    size, threshold in units of the standard deviation, all three metrics, and the subclasses that
+    inherit the RQA methods (RecurrenceNetwork, JointRecurrencePlot, JointRecurrenceNetwork, incl.
+    a lag).  Oracle: run-length count of the object's own `recurrence_matrix()` over ALL diagonals
+    off the main one (both triangles), rows, white rows; accounting; the stated scalar formulas."""
+    from pyunicorn.timeseries import (RecurrencePlot, RecurrenceNetwork, JointRecurrencePlot,
+                                      JointRecurrenceNetwork)
+    for c in range(60 if quick else 500):
+        n = rng.randrange(3, 14 if quick else 36)
+        den = rng.choice([2, 4, 8])
+        dim = rng.choice([1, 1, 2])
+        ts = np.array([[rng.randrange(0, 4 * den) / den for _ in range(dim)] for _ in range(n)])
+        ts += nprng.rand(n, dim) * 1e-3            # break ties of the rate criteria
+        metric = rng.choice(["supremum", "supremum", "manhattan", "euclidean"])
+        crit = rng.choice(["local_recurrence_rate", "local_recurrence_rate", "recurrence_rate",
+                           "adaptive_neighborhood_size", "threshold_std", "threshold"])
+        val = {"local_recurrence_rate": rng.choice([0.2, 0.3, 0.5, 0.8]),
+               "recurrence_rate": rng.choice([0.1, 0.3, 0.6]),
+               "adaptive_neighborhood_size": rng.randrange(1, max(2, n // 2)),
+               "threshold_std": rng.choice([0.3, 0.8, 1.5]),
+               "threshold": rng.choice([1, 2, 3]) / den}[crit]
+        cls = rng.choice(["RecurrencePlot", "RecurrencePlot", "RecurrenceNetwork",
+                          "JointRecurrencePlot", "JointRecurrenceNetwork"])
+        mv = False
+        if crit == "threshold" and cls in ("RecurrencePlot", "RecurrenceNetwork") and rng.random() < 0.4:
+            mv = True
+            for a in range(n):
+                if rng.random() < 0.2:
+                    ts[a, rng.randrange(dim)] = np.nan
+        replay = {"class": cls, "time_series": ts.tolist(), "metric": metric, crit: val,
+                  "missing_values": mv}
+        try:
+            if cls.startswith("Joint"):
+                if crit not in ("threshold", "threshold_std", "recurrence_rate"):
+                    crit, val = "recurrence_rate", 0.4
+                ts2 = np.array([[rng.randrange(0, 4 * den) / den for _ in range(dim)]
+                                for _ in range(n)]) + nprng.rand(n, dim) * 1e-3
+                lag = rng.choice([0, 0, 1, 2]) if n > 5 else 0
+                replay.update({"time_series_y": ts2.tolist(), "lag": lag, crit: val})
+                obj = {"JointRecurrencePlot": JointRecurrencePlot,
+                       "JointRecurrenceNetwork": JointRecurrenceNetwork}[cls](
+                    ts, ts2, metric=(metric, metric), lag=lag, silence_level=3, **{crit: (val, val)})
+            else:
+                obj = {"RecurrencePlot": RecurrencePlot, "RecurrenceNetwork": RecurrenceNetwork}[cls](
+                    ts, metric=metric, missing_values=mv, silence_level=3, **{crit: val})
+            R = np.array(obj.recurrence_matrix())
+            d = list(map(int, obj.diagline_dist()))
+            v = list(map(int, obj.vertline_dist()))
+            w = list(map(int, obj.white_vertline_dist()))
+        except Exception as e:  # noqa
+            ctx.fail({"kind": "object-criteria", "class": cls, "criterion": crit,
+                      "error": type(e).__name__},
+                     f"{cls}({crit}={val}) line histograms raised {type(e).__name__}: {e}", replay)
+            continue
+        N = R.shape[0]
+        if cls == "RecurrenceNetwork" and mv and int(obj.N) != N:
+            # known finding C08-recurrence-network-missing-values-N (Network.__init__ overwrites N)
+            ctx.count("object5:RecurrenceNetwork-with-NaN-samples")
+            if len(d) != N or len(v) != N or len(w) != N:
+                ctx.fail({"kind": "object-criteria", "class": "RecurrenceNetwork",
+                          "missing_values": True, "input_class": "series-with-NaN-samples",
+                          "what": "histogram length is the number of nodes, not of samples"},
+                         f"RecurrenceNetwork(missing_values=True) on a series with NaN samples: line "
+                         f"histograms have length {len(d)} (number of nodes) for a {N}x{N} recurrence "
+                         "matrix", dict(replay, N_network=int(obj.N), N_plot=N))
+            continue
+        sym = bool(np.array_equal(R, R.T))
+        ctx.count(f"object5:{cls}")
+        ctx.count(f"object5:criterion={crit}")
+        ctx.count(f"object5:metric={metric}")
+        ctx.count(f"object5:{'symmetric' if sym else 'ASYMMETRIC'}-matrix")
+        ctx.case(("obj5", cls, crit, repr(val), metric, ts.tobytes().hex(), mv), N >= 2)
+        if mv:
+            Mk = np.isnan(np.asarray(obj.embedding)).sum(axis=1) != 0
+            expv = oracle_lines_mv(mv_cells_rows(R, Mk), N)
+            expd = [a + b for a, b in zip(oracle_lines_mv(mv_cells_diags(R, Mk), N),
+                                          oracle_lines_mv(mv_cells_diags(R.T, Mk), N))]
+        else:
+            expv = oracle_hist(rows(R, 1), N)
+            expd = oracle_hist(lower_diags(R) + lower_diags(R.T), N)
+        expw = oracle_hist(rows(R, 0), N)
+        for nm, got, exp in (("diagline_dist", d, expd), ("vertline_dist", v, expv),
+                             ("white_vertline_dist", w, expw)):
+            if got != exp:
+                ctx.fail({"kind": "object-criteria", "method": nm, "class": cls, "criterion": crit,
+                          "symmetric": sym},
+                         f"{cls}({crit}).{nm}() differs from the run-length count of its "
+                         f"{'symmetric' if sym else 'asymmetric'} recurrence matrix",
+                         dict(replay, expected=exp, observed=got, R=enc_mat(R)))
+        ar = np.arange(1, N + 1)
+        if not mv and (int(ar @ np.array(v)) != int(R.sum()) or
+                       int(ar @ np.array(d)) != int(R.sum() - np.trace(R)) or
+                       int(ar @ np.array(w)) != int(N * N - R.sum())):
+            ctx.fail({"kind": "object-criteria", "method": "accounting", "class": cls,
+                      "criterion": crit},
+                     "histograms do not account for every point exactly once", replay)
+        for lmin in {1, 2, 3}:
+            check_scalars(ctx, obj, N, expd, expv, expw, lmin, ts)
 
 
 class DrawProxy:
